@@ -280,12 +280,12 @@ def real_prediction(np_or_jnp, spec, ex, pkey=None, dtype='float32'):
 
 def stat_arrays(stat):
   """fedjax Stat -> ('mean', accum ndarray, weight ndarray) | ('sum', accum ndarray)."""
-  name = type(stat).__name__
-  if name == 'MeanStat':
+  # by the documented attributes (accum, weight), not by the class name
+  if hasattr(stat, 'accum') and hasattr(stat, 'weight'):
     return 'mean', np.asarray(stat.accum, dtype=np.float64), np.asarray(stat.weight, dtype=np.float64)
-  if name == 'SumStat':
+  if hasattr(stat, 'accum'):
     return 'sum', np.asarray(stat.accum, dtype=np.float64)
-  raise TypeError(name)
+  raise TypeError(type(stat).__name__)
 
 
 def lead_broadcast(a, shape):
